@@ -54,10 +54,10 @@ NearValid == {Place("valid", -1), Place("valid", 0), Place("valid", 1)}
 Later     == {Place("valid", 1000), Place("max", 0)}
 Early     == {Place("proc", 0), Place("proc", 1)}
 
-TDs == IF Quick THEN {N(0), N(1), Sec, Sym(53, 1), Sym(62, 0), Sym(63, 0), Sym(64, -2), Max64, BN!Sub(Two64, BN!Mul(Sec, Sec))}
+TDs == IF Quick THEN {N(0), N(1), Sec, Sym(62, 0), Sym(63, 0), Max64, BN!Sub(Two64, BN!Mul(Sec, Sec))}
        ELSE {N(0), N(1), N(2), Sec, BN!MulSmall(Sec, 600), Sym(53, 0), Sym(53, 1), Sym(62, 0), Sym(63, -1), Sym(63, 0), Sym(63, 1),
              Sym(64, -3), Sym(64, -2), Max64, BN!Sub(Two64, BN!Mul(Sec, Sec)), Rnd(Seed, 9, 50), Rnd64(Seed, 10)}
-BDs == IF Quick THEN {N(0), N(1), N(3), Sym(62, 0), Sym(63, 0), Sym(64, -2), Max64}
+BDs == IF Quick THEN {N(0), N(1), N(3), Sym(63, 0), Max64}
        ELSE {N(0), N(1), N(2), N(3), N(10), Sym(32, 0), Sym(62, 0), Sym(63, -1), Sym(63, 0), Sym(63, 1), Sym(64, -3), Sym(64, -2), Max64,
              Rnd(Seed, 11, 30), Rnd64(Seed, 12)}
 
